@@ -1470,6 +1470,68 @@ fn api_cmd(args: &[String]) {
             }
         }
     }
+    // ---- T7: the legacy kern table under a range-restricted `kern` feature (no GPOS): a pair is kerned iff the feature is on
+    //      for BOTH of its glyphs; every (start, end), `kern[s:e]=0` and `-kern` + `kern[s:e]=1`
+    {
+        use crate::fontgen::*;
+        let mut f = FontSpec::basic(6);
+        f.kern = Some(vec![KernSubtable { horizontal: true, minimum: false, cross_stream: false, override_: false, pairs: vec![(1, 2, -80), (2, 1, -61), (2, 2, 33)] }]);
+        let data = build(&f);
+        let face_k = Face::from_slice(&data, 0).expect("font K parses");
+        let tag = rustybuzz::ttf_parser::Tag::from_bytes(b"kern");
+        let kern_of = |a: u32, b: u32| -> i32 { match (a, b) { (1, 2) => -80, (2, 1) => -61, (2, 2) => 33, _ => 0 } };
+        for text in [vec![1u32, 2, 1, 2, 1, 2], vec![2, 2, 1, 2, 2], vec![1, 2, 3, 2, 1]] {
+            let n = text.len() as u32;
+            for start in 0..=n {
+                for end in start..=n + 1 {
+                    for on in [true, false] {
+                        let end_v = if end == n + 1 { u32::MAX } else { end };
+                        let feats = if on { vec![Feature { tag, value: 0, start: 0, end: u32::MAX }, Feature { tag, value: 1, start, end: end_v }] } else { vec![Feature { tag, value: 0, start, end: end_v }] };
+                        let active = |c: u32| -> bool { let inside = start <= c && c < end_v; if on { inside } else { !inside } };
+                        let mut b = UnicodeBuffer::new();
+                        for (i, g) in text.iter().enumerate() {
+                            b.add(char::from_u32(BASE_CP + g - 1).unwrap(), i as u32);
+                        }
+                        b.set_direction(Direction::LeftToRight);
+                        b.set_script(rustybuzz::script::LATIN);
+                        st.evals += 1;
+                        let f2 = &face_k;
+                        let fs = feats.clone();
+                        let out = match catch(std::panic::AssertUnwindSafe(move || { let gb = rustybuzz::shape(f2, &fs, b); gb.glyph_positions().iter().map(|p| (p.x_advance, p.x_offset)).collect::<Vec<_>>() })) {
+                            Ok(o) => o,
+                            Err(e) => {
+                                st.bad += 1;
+                                println!("fail kind=shape-panic:{} font=K feats={:?}", e, feats.iter().map(fmt_feature).collect::<Vec<_>>());
+                                continue;
+                            }
+                        };
+                        let mut want: Vec<(i32, i32)> = text.iter().map(|g| (FontSpec::basic_hadv(*g as u16) as i32, 0)).collect();
+                        let mut any = false;
+                        for i in 0..text.len() - 1 {
+                            let k = kern_of(text[i], text[i + 1]);
+                            if k != 0 && active(i as u32) && active(i as u32 + 1) {
+                                let k1 = k >> 1;
+                                let k2 = k - k1;
+                                want[i].0 += k1;
+                                want[i + 1].0 += k2;
+                                want[i + 1].1 += k2;
+                                any = true;
+                            }
+                        }
+                        if any && (0..n).any(|c| !active(c)) {
+                            st.nontrivial += 1;
+                        }
+                        if out != want {
+                            st.bad += 1;
+                            if st.bad <= max_report {
+                                println!("fail kind=range-value-predicate font=K text={:?} feats={} expected={:?} got={:?}", text, feats.iter().map(fmt_feature).collect::<Vec<_>>().join(";"), want, out);
+                            }
+                        }
+                    }
+                }
+            }
+        }
+    }
     println!("api-summary evaluations={} nontrivial={} bad={} t1={} t2={}", st.evals, st.nontrivial, st.bad, t1, st.evals - t1);
 }
 
